@@ -1,9 +1,53 @@
 import SoundeventModel.Ops.Common
+import SoundeventModel.Segment
 namespace SE.Ops.C14
-open Lean SE
+open Lean SE SE.Segment
 
-def handle (op : String) (_a : Json) : Except String Json := do
+def segsJ (l : List (Rat × Rat)) : Json := arrJ (l.map pairJ)
+
+/-- `{"raise": …}` or `{"val": [[start, end], …]}` -/
+def getOut (j : Json) : Except String (Option (List (Rat × Rat))) :=
+  match j.getObjVal? "val" with
+  | .ok v => do return some (← (← getArr v).mapM getPair)
+  | .error _ => .ok none
+
+structure Call where
+  s : Rat
+  e : Rat
+  dur : Rat
+  hop : Option Rat
+  incl : Bool
+
+def getCall (a : Json) : Except String Call := do
+  return ⟨← fldRat a "start", ← fldRat a "end", ← fldRat a "duration", ← fldOptRat a "hop", ← fldBool a "incl"⟩
+
+abbrev Key := String × Rat × Rat
+
+/-- identifiers are modelled by their keys: the class of a segment is the position of its key
+    among the distinct keys in order of first occurrence -/
+def idClasses (calls : List (String × Call)) : List (Except Err (List Nat)) :=
+  let keyed : List (Except Err (List Key)) := calls.map fun (parent, c) =>
+    (segmentClipOpt c.s c.e c.dur c.hop c.incl).map (·.map (segKey parent))
+  let all : List Key := (keyed.map fun r => match r with | .ok ks => ks | .error _ => []).flatten.eraseDups
+  keyed.map fun r => r.map (·.map fun k => all.idxOf k)
+
+def handle (op : String) (a : Json) : Except String Json := do
   match op with
+  | "segment" =>
+    let c ← getCall a
+    return exceptJ segsJ (segmentClipOpt c.s c.e c.dur c.hop c.incl)
+  | "segment_pinned" =>
+    let c ← getCall a
+    return exceptJ segsJ (segmentClipPinnedOpt c.s c.e c.dur c.hop c.incl)
+  | "holds" =>
+    -- the property evaluated on an observed result of the implementation
+    let c ← getCall a
+    return boolJ (holds c.s c.e c.dur (c.hop.getD c.dur) c.incl (← getOut (← fld a "out")))
+  | "id_classes" =>
+    let calls ← (← fldArr a "calls").mapM fun j => do return (← fldStr j "parent", ← getCall j)
+    return valJ (arrJ ((idClasses calls).map fun r => match r with
+      | .ok l => natsJ l
+      | .error e => raiseJ e))
   | _ => .error s!"C14: unknown op {op}"
 
 end SE.Ops.C14
